@@ -417,3 +417,7 @@ func TestVerifReplay(t *testing.T) {
 	say("REPLAY-NOTE: reads=%d draws=%d tape_consumed=%d\n", vReadCnt, len(verifDrawLog), vTapePos)
 	say("REPLAY-RESULT: %s\n", result)
 }
+
+// vCoinScript natively: nothing to do - the engine-made tape already holds the
+// scripted coin values.
+func vCoinScript(mode, free int) {}
